@@ -411,15 +411,7 @@ func (e *engine) dump(c *caseCfg) string {
 		f := e.byName[fname]
 		var keys []string
 		if fd := c.flow(fname); fd != nil {
-			seen := map[string]bool{}
-			for _, g := range c.flows { // a flow with references also holds nodes of the referenced flows
-				for _, p := range g.procs {
-					if !seen[p[0]] {
-						seen[p[0]] = true
-						keys = append(keys, p[0])
-					}
-				}
-			}
+			keys = candidateKeys(c) // own nodes, nodes of referenced flows, borrowed processors
 		} else {
 			for _, q := range c.quotas {
 				id := strings.ReplaceAll(q.id, ".", "")
@@ -466,19 +458,30 @@ func (e *engine) dump(c *caseCfg) string {
 	return strings.Join(words, " ")
 }
 
+// candidateKeys: every node key a direction can hold: the processor keys of all flows and the borrowed
+// forms `flow.key`.
+func candidateKeys(c *caseCfg) []string {
+	var keys []string
+	seen := map[string]bool{}
+	add := func(k string) {
+		if !seen[k] {
+			seen[k] = true
+			keys = append(keys, k)
+		}
+	}
+	for _, g := range c.flows {
+		for _, p := range g.procs {
+			add(p[0])
+			add(g.name + "." + p[0])
+		}
+	}
+	return keys
+}
+
 // anyCycle: some built direction of some selected flow contains a processor cycle (conditions ignored).
 // Such configurations are never executed by this harness (C05: F05a).
 func (e *engine) anyCycle(c *caseCfg) bool {
-	var allKeys []string
-	seen := map[string]bool{}
-	for _, g := range c.flows {
-		for _, p := range g.procs {
-			if !seen[p[0]] {
-				seen[p[0]] = true
-				allKeys = append(allKeys, p[0])
-			}
-		}
-	}
+	allKeys := candidateKeys(c)
 	for _, q := range c.quotas {
 		id := strings.ReplaceAll(q.id, ".", "")
 		allKeys = append(allKeys, id+"_QuotaProcessorInc", id+"_QuotaProcessorDec")
